@@ -25,6 +25,7 @@ EXPLANATION += (' Third audit wave: C03.13 (= C13.13) ook.THRESHOLD_EST returns 
 EXPLANATION += (" Fourth audit wave: C03.16 the density valley that gives GET_EYE's threshold is searched between the bulks of the two populations: an alternative of the search grid runs from mu0 + a*s0 to mu1 - b*s1 with a, b >= 1. From level to level the grid includes the inner half of each population, where a level split by inter-symbol interference on a short record has a dip of its own (two PPM symbols: threshold above the lowest ON sample). C03.12 requires the one-slot image of the crossings on every alternative of the clustered value.")
 EXPLANATION += (" C03.17 (open known finding): ppm.DSP applies a threshold estimated around the eye's own instant (eye.i) to the samples at gv.sps//2; holds only when GET_EYE is told the decision instant. The failing input and why the one-line repair (decide at eye.i) was rejected are in known_findings.json and DESIGN 3.4.")
 EXPLANATION += (" Wave 14: C03.18 the fibre of the link applies the linear operator of C07 / C08 (loss, beta_2, beta_3 terms on the signal's own unshifted frequency grid, whatever gv.N holds).")
+EXPLANATION += (' Wave 15: C03.19 the transmitter of the link is the pulse shaper of C05 (C05.1 shared): each slot waveform is the bit times the pulse centred on the slot for records of any length - a Gaussian branch that convolves with numpy.convolve(mode=same), which centres on the longer operand, displaces the pulses of a record shorter than the kernel.')
 TRUSTED = ["the per-block properties C05, C06, C09, C11, C12, C17", "numpy comparison/sum semantics"]
 LEVEL_TEXT = ("Partial, structural: decides the wiring of ook.DSP / ppm.DSP (sampling instant, comparator, threshold source, decoder order) and the "
               "error-counter formula - necessary conditions of C03. The end-to-end claim over all bit patterns and configurations is not decided by "
@@ -322,6 +323,10 @@ def run(ctx):
     from . import c07 as _c07, c08 as _c08
     _fi, _it = _c07.fiber_forms(ctx)
     run_relabelled(ctx, _c08.rule_dop, {"C03.18": "C03.18"}, _fi, _it, "C03.18")
+    # C03.19: the transmitter of the link is the pulse shaper of C05: each slot's waveform is the bit times the pulse, centred on the slot, for
+    # records of any length (a convolution that centres on the LONGER operand displaces the pulses of a record shorter than the kernel)
+    from . import c05 as _c05
+    run_relabelled(ctx, _c05.run, {"C05.1": "C03.19"}, _only=True)
     # every stage of the link reads the sampling grid in force when it is CALLED (a default or cache bound earlier describes another grid)
     check_late_binding(ctx, "C03.5", ["ook.DSP", "ppm.DSP", "ook.BER_analizer", "ppm.BER_analizer", "devices.DAC", "devices.MZM", "devices.PD", "devices.SAMPLER", "devices.LPF",
                                       "devices.GET_EYE", "devices.DM", "ppm.PPM_ENCODER", "ppm.PPM_DECODER", "ppm.HDD", "ppm.SDD", "ppm.THRESHOLD_EST", "ook.THRESHOLD_EST"])
